@@ -1,1 +1,53 @@
-// harnesses for module m_group (included into /repo under cfg(kani))
+// C13/C14: -gid (and -group N) compare the selected record's group id.
+use super::*;
+use crate::find::matchers::entry::verif_kani::*;
+use crate::find::matchers::stat::verif_kani::{any_cv, want_cmp};
+use crate::find::matchers::Follow;
+
+// @harness props=C13,C14 tier=quick cost=60 flags=nomem
+// @exec GroupMatcher::{from_comparable,from_gid,matches}, ComparableValue::matches, WalkEntry::metadata
+// @sym world, follow P/H/L, depth 0..1, N: u64, form; gid: u32
+// @bounds one path; depth <= 1
+// @assume kernel contract for stat vs lstat
+#[kani::proof]
+#[kani::unwind(3)]
+#[kani::stub(alloc::fmt::format, fmt_stub)]
+#[kani::stub(std::fs::metadata, stat_stub)]
+#[kani::stub(std::fs::symlink_metadata, lstat_stub)]
+fn c13_gid_record() {
+    let (lst, sst, s_ok, s_err) = any_world(&[libc::ENOENT, libc::ELOOP]);
+    let follow = any_follow();
+    let depth: usize = kani::any();
+    kani::assume(depth <= 1);
+    let entry = WalkEntry::new("a", depth, follow);
+    let deps = Deps::new();
+    let mut io = MatcherIO::new(&deps);
+    let rec = selected_record(lst, sst, s_ok, s_err, follow.follow_at_depth(depth));
+    if kani::any() {
+        let (cv, k, n) = any_cv();
+        let got = GroupMatcher::from_comparable(cv).matches(&entry, &mut io);
+        match rec { Some(r) => assert!(got == want_cmp(k, n, r.st_gid as u64)), None => assert!(!got) }
+        kani::cover!(got && k == 0);
+    } else {
+        let gid: u32 = kani::any();
+        let got = GroupMatcher::from_gid(gid).matches(&entry, &mut io);
+        match rec { Some(r) => assert!(got == (r.st_gid == gid)), None => assert!(!got) }
+        kani::cover!(got && follow == Follow::Roots && depth == 0 && s_ok && lst.st_gid != sst.st_gid);
+    }
+    std::mem::forget(entry);
+}
+#[kani::proof]
+#[kani::unwind(3)]
+#[kani::stub(alloc::fmt::format, fmt_stub)]
+#[kani::stub(std::fs::metadata, stat_stub)]
+#[kani::stub(std::fs::symlink_metadata, lstat_stub)]
+fn c13_gid_record_canary() {
+    let (lst, _sst, _s_ok, _s_err) = any_world(&[libc::ENOENT]);
+    let entry = WalkEntry::new("a", 0, any_follow());
+    let deps = Deps::new();
+    let mut io = MatcherIO::new(&deps);
+    let gid: u32 = kani::any();
+    let got = GroupMatcher::from_gid(gid).matches(&entry, &mut io);
+    assert!(got == (lst.st_uid == gid)); // wrong field: must FAIL
+    std::mem::forget(entry);
+}
